@@ -12,11 +12,11 @@ CLAIMED = {
          "DESIGN.md §4 C01"),
 
  "C03": ("property-based testing: type-directed expression trees against an independent reference evaluator on exact big-integer decimals; exhaustive operator x palette table",
-         "Exploration: every built-in binary operator over every ordered pair of a 30-value palette (plain and `not` form), prefix operators, aggregates, and ~400k random typed/ill-typed trees are evaluated and compared (value and variant) with a reference evaluator; wrong operand types must give Err.",
+         "Exploration: every built-in binary operator over every ordered pair of a 31-value palette (plain and `not` form), prefix operators, aggregates, and ~400k random typed/ill-typed trees are evaluated and compared (value and variant) with a reference evaluator; wrong operand types must give Err.",
          "Trusts the reference evaluator as the reading of the documented semantics; results the documentation does not pin are marked unspecified and only checked for no-panic (listed in the evidence assumptions).",
          "DESIGN.md §4 C03"),
  "C04": ("property-based testing in two build profiles: exhaustive operator x edge-palette table and generated edge-value trees against checked big-integer reference arithmetic, under catch_unwind",
-         "Exploration, exhaustive over the stated table: all arithmetic/bit operators and their compound forms over all ordered pairs of a 44-value edge palette, plus aggregates and postfix/prefix forms, and ~100k random edge-value trees, each in the dev build (overflow checks) and the release build; every numeric fault must be Err, everything else the exact value.",
+         "Exploration, exhaustive over the stated table: all arithmetic/bit operators and their compound forms over all ordered pairs of a 46-value edge palette, plus aggregates and postfix/prefix forms, and ~100k random edge-value trees, each in the dev build (overflow checks) and the release build; every numeric fault must be Err, everything else the exact value.",
          "Same reference evaluator as C03; near-limit results that need rounding are not asserted.",
          "DESIGN.md §4 C04"),
  "C06": ("model-based property testing: generated statement sequences run on the engine (execute and parse+exec) and on a model context with the reference evaluator; results and every binding compared",
@@ -57,7 +57,7 @@ CLAIMED = {
          "Needs the cfg-guarded init probe; deadlock = 10 s watchdog reproduced; the listed known finding (torn registration) is tolerated by exact signature only.",
          "DESIGN.md §4 C13"),
  "C14": ("exhaustive matrix plus generated chains in fresh child processes: every handler kind x every re-entrant action, each handler probing all engine locks with try_lock before acting, under a watchdog",
-         "Exploration, exhaustive over the stated matrix: 13 handler kinds x 15 re-entrant actions (incl. re-registering the running handlers and registering an operator used later in the running program), all ordered kind pairs x 5 actions, and ~8000 generated chains of 2-4 handlers; every handler finds all registries and the evaluating context unlocked, the action completes and the outer evaluation returns the hand-computed value.",
+         "Exploration, exhaustive over the stated matrix: 15 handler kinds x 16 re-entrant actions (incl. re-registering the running handlers and registering an operator used later in the running program), all ordered kind pairs x 5 actions, and ~8000 generated chains of 2-4 handlers; every handler finds all registries and the evaluating context unlocked, the action completes and the outer evaluation returns the hand-computed value.",
          "Lock state through the cfg-guarded locks_free() hook and the context's public mutex; single-threaded evaluations, so a held lock is attributable to the engine.",
          "DESIGN.md §4 C14"),
  "C18": ("stateful property testing: generated descriptor-registration histories in fresh child processes over 1-3 persistent threads; describe() of every AST after every step on every thread against a model registry of marker descriptors; exhaustive single-registration table",
